@@ -36,6 +36,9 @@ func checkC02(ctx *Ctx, r *Report) {
 	})
 	r.Floor("captured-error assignments in callbacks", 10)
 	c10NumberCanonical(ctx, r)
+	c02RuntimeGuard(ctx, r)
+	c02SortedSearch(ctx, r)
+	c02TypedListLiterals(ctx, r)
 }
 
 // kindConsts: the constants of ast.Kind / ast.ScalarKind.
@@ -964,4 +967,253 @@ func c02InheritsRegistration(ts *tmplSet, tmplReg map[string]map[string][]parse.
 		}
 	}
 	return sites > 0
+}
+
+// ---------------------------------------------------------------------------
+// rules added after the second round of independent seeds
+
+// c02RuntimeGuard: a Go renderer whose template imports the generated runtime package (`importPkg "cog"`) is only called
+// under a condition one of whose conjuncts is `!…SkipRuntime` (with skip_runtime the package `cog` is not generated):
+// directly, or because its caller is.
+func c02RuntimeGuard(ctx *Ctx, r *Report) {
+	p := ctx.Pkg("internal/jennies/golang")
+	if p == nil {
+		return
+	}
+	info := p.TypesInfo
+	ts, err := loadTemplates(ctx, "golang")
+	if err != nil {
+		return
+	}
+	// template files that register cog (any tree of the file)
+	cogFiles := map[string]bool{}
+	for _, name := range ts.names() {
+		walkTmpl(ts.trees[name].Root, func(m parse.Node) bool {
+			if cmd, ok := m.(*parse.CommandNode); ok && len(cmd.Args) >= 2 {
+				if id, ok := cmd.Args[0].(*parse.IdentifierNode); ok && id.Ident == "importPkg" {
+					if s, ok := cmd.Args[1].(*parse.StringNode); ok && s.Text == "cog" {
+						cogFiles[strings.TrimPrefix(ts.file[name], "internal/jennies/golang/templates/")] = true
+					}
+				}
+			}
+			return true
+		})
+	}
+	// functions naming one of those files
+	using := map[*types.Func]string{}
+	decls := map[*types.Func]*ast.FuncDecl{}
+	for _, f := range p.Syntax {
+		for _, d := range f.Decls {
+			fd, ok := d.(*ast.FuncDecl)
+			if !ok || fd.Body == nil {
+				continue
+			}
+			fobj, _ := info.Defs[fd.Name].(*types.Func)
+			decls[fobj] = fd
+			ast.Inspect(fd.Body, func(m ast.Node) bool {
+				if lit, ok := m.(*ast.BasicLit); ok && lit.Kind == token.STRING {
+					if cogFiles[strings.Trim(lit.Value, "\"")] {
+						using[fobj] = strings.Trim(lit.Value, "\"")
+					}
+				}
+				return true
+			})
+		}
+	}
+	hasSkipConjunct := func(cond ast.Expr) bool {
+		var conj func(e ast.Expr) bool
+		conj = func(e ast.Expr) bool {
+			e = ast.Unparen(e)
+			if be, ok := e.(*ast.BinaryExpr); ok && be.Op == token.LAND {
+				return conj(be.X) || conj(be.Y)
+			}
+			if u, ok := e.(*ast.UnaryExpr); ok && u.Op == token.NOT {
+				return strings.HasSuffix(exprString(u.X), ".SkipRuntime")
+			}
+			return false
+		}
+		return conj(cond)
+	}
+	n := 0
+	var guardedCall func(fn *types.Func, depth int) (bool, string)
+	guardedCall = func(fn *types.Func, depth int) (bool, string) {
+		sites := 0
+		for caller, fd := range decls {
+			parents := parentMap(fd)
+			var bad string
+			ast.Inspect(fd.Body, func(m ast.Node) bool {
+				c, ok := m.(*ast.CallExpr)
+				if !ok || callee(info, c) != fn {
+					return true
+				}
+				sites++
+				ok2 := false
+				for _, ce := range enclosingConds(parents, c) {
+					if !ce.inElse && hasSkipConjunct(ce.stmt.Cond) {
+						ok2 = true
+					}
+				}
+				if !ok2 && depth < 2 {
+					// the caller itself is only called under the guard
+					if g, _ := guardedCall(caller, depth+1); g {
+						ok2 = true
+					}
+				}
+				if !ok2 {
+					bad = ctx.FuncName(caller) + " at " + ctx.Pos(c.Pos())
+				}
+				return true
+			})
+			if bad != "" {
+				return false, bad
+			}
+		}
+		return sites > 0, ""
+	}
+	var fns []*types.Func
+	for fn := range using {
+		fns = append(fns, fn)
+	}
+	sort.Slice(fns, func(i, j int) bool { return fns[i].FullName() < fns[j].FullName() })
+	for _, fn := range fns {
+		// the Builder / Converter jennies are only instantiated under !config.SkipRuntime (jennies.go: common.If(…)): their
+		// renderers are methods of those types
+		if sig := fn.Type().(*types.Signature); sig.Recv() != nil {
+			rt := strings.TrimPrefix(sig.Recv().Type().String(), "*")
+			if strings.HasSuffix(rt, ".Builder") || strings.HasSuffix(rt, ".Converter") {
+				continue
+			}
+		}
+		n++
+		ok2, where := guardedCall(fn, 0)
+		r.Check(ok2, "options/runtime-guard", ctx.FuncName(fn)+" (renders "+using[fn]+")", decls[fn].Pos(), "every call is made under a conjunction containing !…SkipRuntime",
+			fmt.Sprintf("%s renders %s, which imports the generated runtime package `cog`, and is called without `!SkipRuntime` among the conjuncts of its condition (%s): with skip_runtime the run succeeds and the emitted package imports a package that was not generated", ctx.FuncName(fn), using[fn], where))
+	}
+	r.Count("Go renderers that import the runtime", n)
+	r.Floor("Go renderers that import the runtime", 2)
+}
+
+// c02SortedSearch: a slice literal searched with sort.SearchStrings / sort.SearchInts / slices.BinarySearch is sorted.
+func c02SortedSearch(ctx *Ctx, r *Report) {
+	n := 0
+	ctx.AllFuncDecls(func(p *packages.Package, fd *ast.FuncDecl, obj *types.Func) {
+		if fd.Body == nil {
+			return
+		}
+		info := p.TypesInfo
+		ast.Inspect(fd.Body, func(m ast.Node) bool {
+			c, ok := m.(*ast.CallExpr)
+			if !ok || len(c.Args) < 2 {
+				return true
+			}
+			fn := callee(info, c)
+			if fn == nil {
+				return true
+			}
+			switch fn.FullName() {
+			case "sort.SearchStrings", "sort.SearchInts", "slices.BinarySearch", "sort.SearchFloat64s":
+			default:
+				return true
+			}
+			n++
+			// the haystack: a package-level variable or a local bound to a literal
+			var lit *ast.CompositeLit
+			if id, ok := ast.Unparen(c.Args[0]).(*ast.Ident); ok {
+				if v, ok := objOf(info, id).(*types.Var); ok {
+					for _, f := range p.Syntax {
+						ast.Inspect(f, func(k ast.Node) bool {
+							if vs, ok := k.(*ast.ValueSpec); ok {
+								for i, nm := range vs.Names {
+									if info.Defs[nm] == v && i < len(vs.Values) {
+										if cl, ok := vs.Values[i].(*ast.CompositeLit); ok {
+											lit = cl
+										}
+									}
+								}
+							}
+							return true
+						})
+					}
+				}
+			}
+			if lit == nil {
+				return true // sorted at run time or not a literal: not decided here
+			}
+			var vals []string
+			for _, e := range lit.Elts {
+				if tv, ok := info.Types[e]; ok && tv.Value != nil {
+					vals = append(vals, tv.Value.ExactString())
+				}
+			}
+			sorted := sort.SliceIsSorted(vals, func(i, j int) bool { return vals[i] < vals[j] })
+			r.Check(sorted && len(vals) == len(lit.Elts), "lint/binary-search-sorted", ctx.FuncName(obj)+" searches "+exprString(c.Args[0]), c.Pos(), "the literal is sorted",
+				fmt.Sprintf("%s does a binary search over the literal %s, which is not sorted: some elements are never found", ctx.FuncName(obj), exprString(c.Args[0])))
+			return true
+		})
+	})
+	r.Count("binary searches", n)
+}
+
+// c02TypedListLiterals: golang.formatScalar prints every list as `[]string{…}` (it has no access to the element type). A
+// default value — `<type>.Default`, an entry of a struct-default override map — may be a list of anything: it must be
+// formatted by formatDefaultValue, which takes the literal's type from the field, never handed to formatScalar directly.
+func c02TypedListLiterals(ctx *Ctx, r *Report) {
+	p := ctx.Pkg("internal/jennies/golang")
+	if p == nil {
+		return
+	}
+	info := p.TypesInfo
+	defaultF := astField(ctx, "Type", "Default")
+	n := 0
+	for _, f := range p.Syntax {
+		for _, d := range f.Decls {
+			fd, ok := d.(*ast.FuncDecl)
+			if !ok || fd.Body == nil || fd.Name.Name == "formatDefaultValue" || fd.Name.Name == "formatScalar" {
+				continue
+			}
+			fobj, _ := info.Defs[fd.Name].(*types.Func)
+			// locals bound to an element of a map[string]any (override maps)
+			overrideVals := map[types.Object]bool{}
+			ast.Inspect(fd.Body, func(m ast.Node) bool {
+				as, ok := m.(*ast.AssignStmt)
+				if !ok || len(as.Rhs) != 1 {
+					return true
+				}
+				if ix, ok := ast.Unparen(as.Rhs[0]).(*ast.IndexExpr); ok {
+					if mt, ok := info.TypeOf(ix.X).Underlying().(*types.Map); ok && isEmptyInterface(mt.Elem()) {
+						if id, ok := as.Lhs[0].(*ast.Ident); ok {
+							overrideVals[objOf(info, id)] = true
+						}
+					}
+				}
+				return true
+			})
+			k := 0
+			ast.Inspect(fd.Body, func(m ast.Node) bool {
+				c, ok := m.(*ast.CallExpr)
+				if !ok || len(c.Args) != 1 {
+					return true
+				}
+				fn := callee(info, c)
+				if fn == nil || fn.Name() != "formatScalar" || fn.Pkg() != p.Types {
+					return true
+				}
+				n++
+				arg := ast.Unparen(c.Args[0])
+				bad := ""
+				if s, ok := arg.(*ast.SelectorExpr); ok && fieldOf(info, s) == defaultF {
+					bad = exprString(arg)
+				}
+				if id, ok := arg.(*ast.Ident); ok && overrideVals[objOf(info, id)] {
+					bad = exprString(arg) + " (an entry of a struct-default override map)"
+				}
+				k++
+				r.Check(bad == "", "kinds/typed-list-literal", fmt.Sprintf("%s formatScalar call #%d", ctx.FuncName(fobj), k), c.Pos(), "the value is not a default that may be a list",
+					fmt.Sprintf("%s hands the default value %s to formatScalar, which prints every list as `[]string{…}`: a default that is a list of numbers / booleans yields a literal of the wrong type and the generated package does not compile", ctx.FuncName(fobj), bad))
+				return true
+			})
+		}
+	}
+	r.Count("formatScalar calls in the Go jenny", n)
+	r.Floor("formatScalar calls in the Go jenny", 4)
 }
